@@ -16,7 +16,11 @@ versus splipy.splinemodel / splipy.io.ofoam on whole model histories (`c18_model
     statement `plansOfObjs` of the model (the function the Lean theorems and the kernel-evaluated witnesses
     use), plus the model-internal check that the catalogue-derived plans equal `plansOfObjs`, plus the decidable
     guard `starOK (plansOfObjs objs) (geomArrays objs)` of `C18_numbering_star` evaluated by the model against the
-    harness' own geometric classification of the history (`history_defects` empty); tag `cells:star-fails`.
+    harness' own geometric classification of the history (`history_defects` empty); tag `cells:star-fails`;
+    the guards `wellOrderedB && noJunkB` of `C18_numbering_partition` (expected true),
+  * `fguard`: the decidable guard `facesGuardB` of `C18_faces_assembly_partial` (faces() can be formed, every
+    interface is listed by the earlier patch, owner and neighbour cell of every face contain its four vertices)
+    against the same certificate recomputed on the real nodes (`faces_certificate`).
 Refinement levels: patches of one complex carry 2, 3 or 5 control points per direction on a common lattice
 (level 0-3) — what `refine(n)` on all patches yields — generated directly (exact dyadic coordinates).
 
@@ -82,7 +86,7 @@ RULE = ('models: structured grids up to 2x2x2 / 3x2, L/T/U/O unions, corner-cont
 REQUIRED_TAGS = ['pardim=2', 'pardim=3', 'faces', 'ofoam', 'ifem:nonempty', 'level=0', 'level=1', 'level=2',
                  'history:linked', 'history:unlinked', 'witness:edge-contact', 'witness:corner-contact',
                  'witness:L-corner-last', 'family:self-connected', 'rational', 'reoriented', 'orient:nonzero',
-                 'interface-faces', 'names>1', 'two-volumes-48', 'cells:repeated-interior-knots', 'cells:star-fails', 'star-ok']
+                 'interface-faces', 'names>1', 'two-volumes-48', 'cells:repeated-interior-knots', 'cells:star-fails', 'star-ok', 'faces-guard:ok', 'faces-guard:fails']
 
 ALL = ['num', 'cps', 'faces', 'ofoam', 'ifem', 'plans']
 
@@ -538,6 +542,32 @@ def run_ofoam(sp, model):
         shutil.rmtree(d, ignore_errors=True)
 
 
+def faces_certificate(model, tops, rows):
+    where = {}
+    for pos, n in enumerate(tops):
+        cn = np.asarray(n.cell_numbers)
+        if any(x <= 0 for x in cn.shape):
+            return False
+        for idx in np.ndindex(*cn.shape):
+            where[int(cn[idx])] = (pos, idx)
+
+    def corners(c):
+        pos, idx = where[c]
+        cp = np.asarray(tops[pos].cp_numbers)
+        return {int(cp[idx[0] + a, idx[1] + b, idx[2] + cc]) for a in (0, 1) for b in (0, 1) for cc in (0, 1)}
+
+    for f in rows:
+        nodes, owner, neigh = set(f[:4]), f[4], f[5]
+        if owner not in where or not nodes <= corners(owner):
+            return False
+        if neigh != -1:
+            if neigh not in where or not nodes <= corners(neigh):
+                return False
+            if where[neigh][0] != where[owner][0] and not where[owner][0] < where[neigh][0]:
+                return False
+    return True
+
+
 def run_impl(sp, s):
     sm = _sm(sp)
     R = build(sp, s)
@@ -568,7 +598,7 @@ def run_impl(sp, s):
             # guards of C18_numbering_partition (ownership first-come, no junk read): expected to hold on every history
             return [True, not s['history'], True, rows]
         plans = _call(real_plans)
-    out = [len(tops), 'skip', 'skip', 'skip', 'skip', 'skip', ifem, plans]
+    out = [len(tops), 'skip', 'skip', 'skip', 'skip', 'skip', ifem, plans, 'skip']
     if 'num' not in what:
         return out
     e = _call(model.generate_cp_numbers)
@@ -593,6 +623,10 @@ def run_impl(sp, s):
             fs = model.faces()
             return [[int(x) for x in f['nodes']] + [int(f['owner']), int(f['neighbor']), 'None' if f['name'] is None else str(f['name'])] for f in fs]
         out[4] = _call(named_faces)
+        # guard of C18_faces_assembly, recomputed on the REAL nodes: faces() can be formed, every interface is listed by
+        # the earlier patch, and the owner / neighbour cell of every face has the face's four vertex numbers among
+        # its eight corner numbers
+        out[8] = (not isinstance(out[4], Err)) and faces_certificate(model, tops, out[4])
         if 'ofoam' in what and not isinstance(out[4], Err):
             o = _call(lambda: run_ofoam(sp, model))
             R['ofoam'] = o
@@ -638,8 +672,9 @@ def canonical(v):
     v = _plain(v)
     if isinstance(v, Err) or not isinstance(v, list):
         return v
-    ntops, num, cps, cells, faces, ofoam, ifem, plans = v
-    out = {'ntops': ntops, 'num': num, 'cps': cps, 'cells': cells, 'faces': faces, 'ofoam': ofoam, 'ifem': ifem, 'plans': plans}
+    ntops, num, cps, cells, faces, ofoam, ifem, plans, fguard = v
+    out = {'ntops': ntops, 'num': num, 'cps': cps, 'cells': cells, 'faces': faces, 'ofoam': ofoam, 'ifem': ifem, 'plans': plans,
+           'fguard': fguard}
     lab = None
     if isinstance(num, list):
         lab = _relabel(num)
@@ -1063,10 +1098,12 @@ def tags(s, res):
         return out
     for w in s['what']:
         out.append(w)
-    names = ['ntops', 'num', 'cps', 'cells', 'faces', 'ofoam', 'ifem', 'plans']
+    names = ['ntops', 'num', 'cps', 'cells', 'faces', 'ofoam', 'ifem', 'plans', 'fguard']
     for nm, part in zip(names, iv):
         if isinstance(part, Err):
             out.append('%s-raises:%s' % (nm, part.kind))
+    if len(iv) > 8 and isinstance(iv[8], bool):
+        out.append('faces-guard:ok' if iv[8] else 'faces-guard:fails')
     if isinstance(iv[6], list):
         out.append('ifem:nonempty' if iv[6] else 'ifem:empty')
         if any(c[4] != 0 for c in iv[6]):
